@@ -192,3 +192,57 @@ func c06optionsForwarded(c *Ctx) {
 	o := c.R.Check(len(bad) == 0 && sites >= 6, rule, "cache constructors#options", "every constructor that takes ...Option and calls another taking the same list forwards its own list", "-", strings.Join(bad, "; "), bad, sites)
 	o.Sites = sites
 }
+
+// c06codec (C06.R10, round 4): one codec for everything the cache holds. A row is stored as jsonx.Marshal text
+// and every reader — the cache hit, the leader of a load, and the readers that joined the leader's flight —
+// decodes with jsonx.Unmarshal*, whose decoder has UseNumber enabled (C17.R2). A second decoder inside the
+// cache-aside packages (encoding/json.Unmarshal has no UseNumber) hands some readers float64 where the others
+// get the exact number: joiners of a flight then do not receive "that query's result" (integers above 2^53 are
+// rounded, an `any`-typed primary key renders as 1.234567e+06 and misses its own cache entry; seed r4-C06-1).
+func c06codec(c *Ctx) {
+	rule := "C06.R10"
+	var bad []string
+	dec, enc := 0, 0
+	for _, pkg := range []string{cachePkg, "core/stores/sqlc", "core/stores/monc"} {
+		for _, f := range c.P.AllFuncs(pkg) {
+			for _, b := range f.Blocks {
+				for _, ins := range b.Instrs {
+					call, ok := ins.(ssa.CallInstruction)
+					if !ok {
+						continue
+					}
+					cc := call.Common()
+					var o *types.Func
+					if cc.IsInvoke() {
+						o = cc.Method
+					} else if sc := cc.StaticCallee(); sc != nil {
+						o, _ = sc.Object().(*types.Func)
+					}
+					if o == nil || o.Pkg() == nil {
+						continue
+					}
+					path := o.Pkg().Path()
+					switch {
+					case path == mod+"core/jsonx" && strings.HasPrefix(o.Name(), "Unmarshal"):
+						dec++
+					case path == mod+"core/jsonx" && strings.HasPrefix(o.Name(), "Marshal"):
+						enc++
+					case path == mod+"core/jsonx":
+					case strings.HasSuffix(path, "json") || strings.Contains(path, "/json") || strings.HasSuffix(path, "/sonic"):
+						switch o.Name() {
+						case "Unmarshal", "NewDecoder", "Decode", "UnmarshalFromString", "Valid":
+							bad = append(bad, fmt.Sprintf("%s: %s decodes with %s instead of core/jsonx (no UseNumber: numbers in interface-typed positions become float64)", c.P.Pos(ins.Pos()), f.Name(), o.FullName()))
+						case "Marshal", "NewEncoder", "Encode", "MarshalToString":
+							bad = append(bad, fmt.Sprintf("%s: %s encodes with %s instead of core/jsonx", c.P.Pos(ins.Pos()), f.Name(), o.FullName()))
+						}
+					}
+				}
+			}
+		}
+	}
+	sort.Strings(bad)
+	c.R.Check(len(bad) == 0, rule, "cache-aside packages#codec", "every encode/decode of a cached row in core/stores/{cache,sqlc,monc} goes through core/jsonx (UseNumber decoder): the readers sharing a load decode exactly like the leader and like a later cache hit", "-", strings.Join(bad, "; "), bad, dec+enc)
+	if len(bad) == 0 && (dec < 2 || enc < 1) {
+		c.R.Undecided(rule, "cache-aside packages#codec-sites", "the jsonx decode and encode sites are recognised", fmt.Sprintf("%d decode, %d encode sites", dec, enc))
+	}
+}
